@@ -132,21 +132,22 @@ var reStratum = regexp.MustCompile(`^[a-z][a-z0-9-]*/`)
 
 // VerdictDefects maps a finding signature to its defect model.
 var VerdictDefects = map[string]func(*model.Defects){
-	"len-bytes":                     func(d *model.Defects) { d.LenBytes = true },
-	"outer-array-limits":            func(d *model.Defects) { d.OuterArrayLimits = true },
-	"inline-item-rules":             func(d *model.Defects) { d.InlineItemNoRule = true },
-	"int-bound-trunc":               func(d *model.Defects) { d.IntBoundTrunc = true },
-	"addprop-lax":                   func(d *model.Defects) { d.AddPropLax = true },
-	"anyof-merged":                  func(d *model.Defects) { d.AnyOfMerged = true },
-	"null-object-zero":              func(d *model.Defects) { d.NullObjZero = true },
-	"addprop-container-lax":         func(d *model.Defects) { d.AddPropObjLax = true },
-	"minsized-uint8-array-is-bytes": func(d *model.Defects) { d.Uint8ArrayBase64 = true },
-	"named-format-type":             func(d *model.Defects) { d.NamedFormat = true },
-	"named-array-no-rules":          func(d *model.Defects) { d.NamedArrayNoLim = true },
-	"null-enum-default":             func(d *model.Defects) { d.EnumNullZero = true },
-	"null-named-scalar-default":     func(d *model.Defects) { d.NamedNullZero = true },
-	"map-value-anon-struct":         func(d *model.Defects) { d.MapValueAnon = true },
-	"null-items-no-limits":          func(d *model.Defects) { d.NullItemsNoLim = true },
+	"len-bytes":                      func(d *model.Defects) { d.LenBytes = true },
+	"outer-array-limits":             func(d *model.Defects) { d.OuterArrayLimits = true },
+	"inline-item-rules":              func(d *model.Defects) { d.InlineItemNoRule = true },
+	"int-bound-trunc":                func(d *model.Defects) { d.IntBoundTrunc = true },
+	"addprop-lax":                    func(d *model.Defects) { d.AddPropLax = true },
+	"anyof-merged":                   func(d *model.Defects) { d.AnyOfMerged = true },
+	"null-object-zero":               func(d *model.Defects) { d.NullObjZero = true },
+	"addprop-container-lax":          func(d *model.Defects) { d.AddPropObjLax = true },
+	"untyped-composition-definition": func(d *model.Defects) { d.UntypedCompDef = true },
+	"minsized-uint8-array-is-bytes":  func(d *model.Defects) { d.Uint8ArrayBase64 = true },
+	"named-format-type":              func(d *model.Defects) { d.NamedFormat = true },
+	"named-array-no-rules":           func(d *model.Defects) { d.NamedArrayNoLim = true },
+	"null-enum-default":              func(d *model.Defects) { d.EnumNullZero = true },
+	"null-named-scalar-default":      func(d *model.Defects) { d.NamedNullZero = true },
+	"map-value-anon-struct":          func(d *model.Defects) { d.MapValueAnon = true },
+	"null-items-no-limits":           func(d *model.Defects) { d.NullItemsNoLim = true },
 }
 
 // Explain returns the known finding whose defect model reproduces the tool's verdict, or "".
